@@ -174,8 +174,12 @@ def multi_loop(aiu, nloops, keep_open, R, progs, st):
                 if tag != 'ret' or v.key != str(k):
                     bad.append(('wrong_outcome', f'loop #{li} call {k} -> {tag} {v!r}'))
                     continue
-                rec = next(b for b in obs.batches if b['bid'] == v.bid)
-                if rec['loop'] is not loop:
+                rec = next((b for b in obs.batches if b['bid'] == v.bid and any(o is v for _, o in b['yields'])),
+                           None)
+                if rec is None:
+                    bad.append(('foreign_result', f'loop #{li} call {k} received {v!r}, which no batch of this '
+                                                  f'decorated function produced'))
+                elif rec['loop'] is not loop:
                     bad.append(('served_by_other_loop', f'loop #{li} call {k} answered by a batch that ran on '
                                                         f'loop #{loops.index(rec["loop"])}'))
             if len(outs) != len(progs[li]):
@@ -297,7 +301,7 @@ def main(tier):
               'configuration (sensitivity); a decorated batcher is then driven from 1..3 successive loops '
               '(closed or kept open) with all 2-call programs per loop'),
         assumptions=['virtual clock; concurrent use from several loops is explored by engine B (see DESIGN)'])
-    if any(n.startswith('VACUOUS') for n in total.notes):
+    if rc != 1 and any(n.startswith('VACUOUS') for n in total.notes):
         print('machinery error: ' + '; '.join(sorted(total.notes)))
         return 2
     return rc
